@@ -38,6 +38,18 @@ def table_fp(mat):
     return h.hexdigest()[:16]
 
 
+def snapshot(arg):
+    """structure AND content of an argument: container types, lengths, identity of the elements, None entries,
+    shape / dtype / bytes of every tensor - a call must leave all of it unchanged"""
+    if arg is None:
+        return ("None",)
+    if isinstance(arg, torch.Tensor):
+        return ("T", id(arg), tuple(arg.shape), str(arg.dtype), fp(arg))
+    if isinstance(arg, (list, tuple)):
+        return (type(arg).__name__, id(arg), tuple(snapshot(a) for a in arg))
+    return ("other", repr(arg))
+
+
 def flat(out):
     res = []
 
@@ -65,6 +77,15 @@ def _pyr_dtcwt(shape, dt, seed):
     return (torch.randn(*yl.shape, generator=g, dtype=torch.float64).to(dt), [torch.randn(*h.shape, generator=g, dtype=torch.float64).to(dt) for h in yh])
 
 
+def _with_absent(pyr, level, how):
+    """a pyramid (as a LIST) whose bandpass level `level` is given the way the library documents for 'absent':
+    None, the 0-dim placeholder the forward transform emits for skipped levels, or torch.tensor([])"""
+    yl, yh = pyr
+    yh = list(yh)
+    yh[level - 1] = {"none": None, "placeholder": yl.new_zeros([]), "empty": torch.tensor([], dtype=yl.dtype)}[how]
+    return (yl, yh)
+
+
 def _rand(shape, dt, seed):
     g = torch.Generator().manual_seed(seed)
     return torch.randn(*shape, generator=g, dtype=torch.float64).to(dt)
@@ -84,10 +105,11 @@ POOL = {
             args={1: lambda dt: _rand((1, 3, 8, 8), dt, 41), 2: lambda dt: _rand((2, 1, 9, 10), dt, 42),
                   3: lambda dt: _rand((1, 1, 16, 18), dt, 43)}),
     5: dict(name="DWTInverse(bior2.2,zero)", make=lambda: pw.DWTInverse(wave="bior2.2", mode="zero"),
-            args={1: lambda dt: _pyr_dwt((1, 2, 9, 12), dt, 51), 2: lambda dt: _pyr_dwt((2, 1, 8, 8), dt, 52),
+            args={1: lambda dt: _pyr_dwt((1, 2, 9, 12), dt, 51), 2: lambda dt: _with_absent(_pyr_dwt((2, 1, 8, 8), dt, 52), 1, "none"),
                   3: lambda dt: _pyr_dwt((1, 1, 17, 20), dt, 53)}),
     6: dict(name="DTCWTInverse()", make=lambda: pw.DTCWTInverse(),
-            args={1: lambda dt: _pyr_dtcwt((1, 2, 10, 12), dt, 61), 2: lambda dt: _pyr_dtcwt((1, 1, 7, 9), dt, 62),
+            args={1: lambda dt: _with_absent(_pyr_dtcwt((1, 2, 10, 12), dt, 61), 2, "empty"),
+                  2: lambda dt: _with_absent(_pyr_dtcwt((1, 1, 7, 9), dt, 62), 1, "placeholder"),
                   3: lambda dt: _pyr_dtcwt((1, 1, 18, 20), dt, 63)}),
     7: dict(name="DWTForward(J=2,db2,periodic)", make=lambda: pw.DWTForward(J=2, wave="db2", mode="periodic"),
             args={1: lambda dt: _rand((1, 2, 9, 12), dt, 11), 2: lambda dt: _rand((2, 1, 8, 8), dt, 12),
@@ -99,11 +121,16 @@ POOL = {
 }
 
 
+class ArgumentMutated(Exception):
+    pass
+
+
 def run_call(mod, arg, grad):
     """what a caller observes: outputs (and, with grad, the gradients of a fixed scalar functional)"""
     if grad:
         leaves = flat(arg)
-        leaves = [l.clone().requires_grad_(True) for l in leaves]
+        # placeholders for absent levels (0-dim / empty tensors) are passed through as they are
+        leaves = [l.clone().requires_grad_(True) if l.dim() > 1 else l for l in leaves]
         it = iter(leaves)
 
         def rebuild(o):
@@ -113,9 +140,12 @@ def run_call(mod, arg, grad):
                 return type(o)(rebuild(q) for q in o)
             return o
         a = rebuild(arg)
+        before = snapshot(a)
         outs = [o for o in flat(mod(a)) if o.dim() > 0]
+        if snapshot(a) != before:
+            raise ArgumentMutated("the call modified the coefficient structure / tensors it was handed")
         loss = sum((o * torch.linspace(0.5, 1.5, o.numel(), dtype=o.dtype).reshape(o.shape)).sum() for o in outs)
-        grads = torch.autograd.grad(loss, leaves, allow_unused=True)
+        grads = torch.autograd.grad(loss, [l for l in leaves if l.dim() > 1], allow_unused=True)
         return [o.detach() for o in outs] + [g for g in grads if g is not None]
     with torch.no_grad():
         return [o for o in flat(mod(arg)) if o.dim() > 0]
@@ -233,7 +263,7 @@ class Replayer:
                     w = Worker(self, mods[e["m"]], arg, e["g"])
                     w.key = (info["c"], e["x"], e["d"], e["g"])
                     w.info = dict(info)
-                    w.arg_fp = fp(flat(arg))
+                    w.arg_fp = snapshot(arg)
                     workers[e["t"]] = w
                     w.start()
                     self.by_ident[w.ident] = w
@@ -273,8 +303,8 @@ class Replayer:
     def _judge(self, k, w, problems, results):
         c, x, d, g = w.key
         name = POOL[c]["name"]
-        if fp(flat(w.arg)) != w.arg_fp:
-            problems.append("event %d: %s modified its argument" % (k, name))
+        if snapshot(w.arg) != w.arg_fp:
+            problems.append("event %d: %s modified its argument (a tensor's bytes, or the coefficient list / tuple it was handed)" % (k, name))
         if w.error is not None:
             problems.append("event %d: %s(arg %d, %s, grad=%s) raised %r" % (k, name, x, d, g, w.error))
             return
@@ -310,9 +340,15 @@ def _ref_task(task):
     torch.set_num_threads(1)
     torch.set_default_dtype(TD[d])
     mod = POOL[c]["make"]()
-    out = run_call(mod, POOL[c]["args"][x](TD[d]), g)
+    arg = POOL[c]["args"][x](TD[d])
+    before = snapshot(arg)
+    try:
+        out = run_call(mod, arg, g)
+        mutated = snapshot(arg) != before
+    except ArgumentMutated:
+        out, mutated = [], True
     tabs = {n: table_fp(m) for n, m in coeffs.COEFF_CACHE.items()}
-    return task, [o.numpy() for o in out], tabs
+    return task, [o.numpy() for o in out], tabs, mutated
 
 
 def build_reference(cfgs, args):
@@ -320,13 +356,15 @@ def build_reference(cfgs, args):
     dependence cannot contaminate the reference), module constructed in that dtype, single thread"""
     import multiprocessing as mp
     tasks = [(c, x, d, g) for c in sorted(cfgs) for x in sorted(args) for d in ("f32", "f64") for g in (False, True)]
-    ref = {"__tables__": {}}
+    ref = {"__tables__": {}, "__mutated__": []}
     # fork: the children inherit this process BEFORE it has made any library call (build_reference runs first),
     # so each task still starts from a history-free state, without paying the import cost 72 times
     coeffs.COEFF_CACHE.clear()
     ctx = mp.get_context("fork")
     with ctx.Pool(min(16, len(tasks)), maxtasksperchild=1) as pool:
-        for task, out, tabs in pool.imap_unordered(_ref_task, tasks, chunksize=1):
+        for task, out, tabs, mutated in pool.imap_unordered(_ref_task, tasks, chunksize=1):
             ref[task] = [torch.from_numpy(o) for o in out]
+            if mutated:
+                ref["__mutated__"].append(task)
             ref["__tables__"].update(tabs)
     return ref
